@@ -15,7 +15,7 @@ Module for environment correlations.
 
 from typing import Callable, Optional, Text
 from typing import Any as ArrayLike
-from functools import lru_cache
+from functools import lru_cache, wraps
 
 import numpy as np
 from scipy import integrate
@@ -25,6 +25,25 @@ from oqupy.config import INTEGRATE_EPSREL, SUBDIV_LIMIT
 from oqupy.util import check_true
 
 #np.seterr(all='warn')
+
+def _cached_on_parameters(method):
+    """
+    Memoise `method` per object, call arguments and current parameter values.
+
+    The tuple returned by the object's `_parameters()` is part of the cache
+    key, such that a result that was computed before a parameter of the
+    object was changed is never returned for its new value.
+    """
+    @lru_cache(maxsize=2 ** 10, typed=False)
+    def cached(self, parameters, *args, **kwargs): # pylint: disable=unused-argument
+        return method(self, *args, **kwargs)
+
+    @wraps(method)
+    def wrapper(self, *args, **kwargs):
+        return cached(self, self._parameters(), *args, **kwargs)
+
+    return wrapper
+
 # --- spectral density classes ------------------------------------------------
 
 class BaseCorrelations(BaseAPIClass):
@@ -197,7 +216,11 @@ class CustomCorrelations(BaseCorrelations):
         """
         return self.correlation_function(tau)
 
-    @lru_cache(maxsize=2 ** 10, typed=False)
+    def _parameters(self) -> tuple:
+        """The parameters on which the memoised integrals depend. """
+        return (self.correlation_function, )
+
+    @_cached_on_parameters
     def correlation_2d_integral(
             self,
             delta: float,
@@ -515,7 +538,12 @@ class CustomSD(BaseCorrelations):
             integral = integral.real
         return integral
 
-    @lru_cache(maxsize=2 ** 10, typed=False)
+    def _parameters(self) -> tuple:
+        """The parameters on which the memoised integrals depend. """
+        return (self.j_function, self.cutoff, self.cutoff_type,
+                self.temperature)
+
+    @_cached_on_parameters
     def eta_function(
             self,
             tau: ArrayLike,
@@ -757,3 +785,7 @@ class PowerLawSD(CustomSD):
         ret.append("  zeta          = {} \n".format(self.zeta))
 
         return "".join(ret)
+
+    def _parameters(self) -> tuple:
+        """The parameters on which the memoised integrals depend. """
+        return super()._parameters() + (self.alpha, self.zeta)
